@@ -29,7 +29,8 @@ CONSTANTS Slates,        \* slate names, e.g. {"s1","s2"}
           FundAcct2,     \* w1 starts with a second account (a1 / "acct1") that holds NFund coinbases too
           UseBuild,      \* owner::build_output and owner::create_mwixnet_req (second reservation kind) on w1
           NChanges,      \* numbers of change outputs a send may ask for (a set, e.g. {1} or {1, 2})
-          QuietW2        \* TRUE: the peer wallet w2 does nothing (self-send configurations: everything happens in w1)
+          QuietW2,       \* TRUE: the peer wallet w2 does nothing (self-send configurations: everything happens in w1)
+          UseFarTtl      \* deliveries claiming the largest cut-off height there is (u64::MAX)
 
 VARIABLES st, hv, net, hist, mids   \* mids: the intermediate persistent states of the last step
 vars == <<st, hv, net, hist, mids>>
@@ -194,6 +195,18 @@ ReceiveActD(w, sl, dest) ==
                net \cup {Msg(sl, "S2", m.amt, m.ttl, OID(st, w, r.key), r.rep)}, e)
      ELSE Upd(st, hv, net, e)
 ReceiveAct(w, sl) == ReceiveActD(w, sl, "")
+\* the S1 message is delivered claiming the largest cut-off height there is (u64::MAX; TtlFar in the model and in the
+\* trace): a cut-off that lies ahead is never a reason to refuse - the receive and everything after it go on as usual
+TtlFar == 1000000000
+ReceiveFarTtlAct(w, sl) ==
+  /\ \E m \in net : m.sl = sl /\ m.stage = "S1" /\ m.ttl = 0
+  /\ LET m == CHOOSE m \in net : m.sl = sl /\ m.stage = "S1"
+         r == Receive(st, w, [sl |-> sl, dest |-> "", amt |-> m.amt, ttl |-> TtlFar, hasproof |-> FALSE, kernin |-> "part"])
+         e == [ev |-> "receive", w |-> w, sl |-> sl, dest |-> "", tamper |-> "ttl_max", mok |-> (r.res = "ok")] IN
+     IF r.res = "ok"
+     THEN UpdS(r.steps, HvAfterReceive(st, LastOf(r.steps), hv, w, sl),
+               net \cup {Msg(sl, "S2", m.amt, TtlFar, OID(st, w, r.key), r.rep)}, e)
+     ELSE Upd(st, hv, net, e)
 \* a second account on the recipient
 CreateAccount2Act ==
   /\ "a1" \notin AllAccts(st, "w2")
@@ -289,7 +302,7 @@ MineReuseAct ==
            Upd(MineToKey(st, "w1", txs, k), hv, net, [ev |-> "mine", to |-> "w1", txs |-> txs, key |-> k])
 TickAct ==   \* an empty block, only while something can change by it (a pending TTL)
   /\ Height(st) < MaxH
-  /\ \E m \in net : m.ttl # 0 /\ m.ttl + 1 > Height(st)
+  /\ \E m \in net : m.ttl # 0 /\ m.ttl < TtlFar /\ m.ttl + 1 > Height(st)
   /\ Upd(MineForeign(st, {}), hv, net, [ev |-> "mine", to |-> "", txs |-> {}])
 
 RefreshAct(w) ==
@@ -416,6 +429,7 @@ Next ==
   \/ UseAccounts /\ (CreateAccountAct \/ \E a \in {"a0", "a1"} : SetActiveAct(a)
                      \/ \E sl \in Slates, amt \in Amounts : InitSendAct(sl, amt, FALSE, 0, "default"))
   \/ \E sl \in Slates : (~QuietW2 /\ ReceiveAct("w2", sl)) \/ PostAct(sl)
+  \/ UseFarTtl /\ ~QuietW2 /\ \E sl \in Slates : ReceiveFarTtlAct("w2", sl)
   \/ UseSelf /\ \E sl \in Slates : ReceiveAct("w1", sl)
   \/ UseAccounts2 /\ (CreateAccount2Act \/ \E sl \in Slates : ReceiveActD("w2", sl, "acct1"))
   \/ \E sl \in Slates : \E m \in net : FinalizeAct(sl, m) \/ LockAct(sl, m)
